@@ -21,7 +21,20 @@ var fPlainBin *string
 var fIn *string
 
 func init() {
-	engines["C07"] = runTrace
+	engines["C07"] = func() *ShardResult {
+		total := *fBudget
+		*fBudget = total * 3 / 4
+		res := runTrace()
+		// what Create hands out when preallocation (or any other step) fails: simulated OS, every failing step
+		*fBudget = total / 4
+		res.merge(runFault("C07"), "fault_")
+		*fBudget = total
+		if *fShard == 0 {
+			filerDeleteCases(res)
+		}
+		return res
+	}
+	engines["C07TRACE"] = runTrace
 	engines["C07CHILD"] = runTraceChild
 }
 
@@ -152,7 +165,12 @@ func runTrace() *ShardResult {
 			}
 			// conformance: the simulated OS under the real fs package must see the same event sequence
 			if wl != nil {
-				simEv := simEvents(wl)
+				simEv, simViol := simEvents(wl)
+				for _, v := range simViol {
+					if v.Prop == "C07" {
+						add(fmt.Sprintf("seg=%d|%s|%s", wl.Cfg.SegSize, core.OpsString(wl.Ops), v.Msg), "[simulated OS] "+v.Msg, wl)
+					}
+				}
 				realEv := filterEvents(wt.Events)
 				res.Counts["traces_validated"]++
 				if a, b := evString(simEv), evString(realEv); a != b {
@@ -229,10 +247,10 @@ func filterEvents(es []core.FsEvent) []core.FsEvent {
 }
 
 // simEvents runs the workload on the simulated OS (this binary is built with the overlay).
-func simEvents(wl *traceWorkload) []core.FsEvent {
+func simEvents(wl *traceWorkload) ([]core.FsEvent, []core.Violation) {
 	sys := core.Mount(simdisk.NewState(), wl.Cfg)
 	defer sys.Unmount()
-	core.RunSession(nil, wl.Cfg, wl.Ops, core.SessionOpts{Sys: sys, CloseAtEnd: true})
+	sr := core.RunSession(nil, wl.Cfg, wl.Ops, core.SessionOpts{Sys: sys, CloseAtEnd: true})
 	names := map[int]string{}
 	var out []core.FsEvent
 	for _, o := range sys.Disk.Log {
@@ -252,7 +270,7 @@ func simEvents(wl *traceWorkload) []core.FsEvent {
 			out = append(out, core.FsEvent{Kind: "unlink", Name: o.Name})
 		}
 	}
-	return out
+	return out, sr.Viol
 }
 
 // ---------------------------------------------------------------------------
@@ -375,5 +393,33 @@ func checkZeroFill(dir string, seg int, bad func(string)) {
 				z = 0
 			}
 		}
+	}
+}
+
+// filerDeleteCases: Filer.Delete with every one of its I/O steps failing in every flavour, then a retry.
+func filerDeleteCases(res *ShardResult) {
+	_, n, _ := core.FilerDeleteCase(-1000, simdisk.FaultClean) // fault-free run sizes the menu
+	outcomes := map[string]bool{}
+	for at := -1; at < n; at++ {
+		for _, kind := range []simdisk.FaultKind{simdisk.FaultClean, simdisk.FaultAfter} {
+			if at < 0 && kind != simdisk.FaultClean {
+				continue
+			}
+			a := at
+			if at < 0 {
+				a = -1000
+			}
+			viol, _, oc := core.FilerDeleteCase(a, kind)
+			res.Counts["evaluations"]++
+			res.Counts["filer_delete_cases"]++
+			res.Counts["traces_validated"]++
+			outcomes[oc] = true
+			for _, v := range viol {
+				res.Findings = append(res.Findings, core.Finding{Prop: "C07", Engine: "filerdelete", Msg: fmt.Sprintf("Filer.Delete with I/O step %d failing (flavour %d): %s", at, kind, v), SigS: fmt.Sprintf("C07|filerdelete|%d|%d", at, kind)})
+			}
+		}
+	}
+	for o := range outcomes {
+		res.Sets["states"] = append(res.Sets["states"], "filerdelete:"+o)
 	}
 }
